@@ -14,7 +14,7 @@ import (
 // emits every evaluation as a case for the generated Coq functions.
 func runC19(cfg config) *hx.Report {
 	rep := hx.NewReport("C19")
-	rep.Rule = "pairs (size, chunkSize): exhaustive size<=64 x cs<=17, boundary pairs k*cs-1,k*cs,k*cs+1, 2^31+-1, 2^32-1, 10 TiB, and random 64-bit-scale pairs inside the property's domain; a pair is non-trivial when it has >= 2 chunks and a short last chunk, or sits on a chunk boundary; distinct by (size, cs)"
+	rep.Rule = "pairs (size, chunkSize): exhaustive size<=64 x cs<=17, boundary pairs k*cs-1,k*cs,k*cs+1, 2^31+-1, 2^32-1, 10 TiB, and random 64-bit-scale pairs inside the property's domain; a pair is non-trivial when it has >= 2 chunks and a short last chunk, or sits on a chunk boundary; distinct by (size, cs); plus one-file transfers between the real endpoints for sizes 0, 1, k*cs-1, k*cs, k*cs+1 (the receiver must accept and write exactly the chunk indexes the geometry gives)"
 	cf := &hx.CasesFile{Dir: cfg.out, Name: "C19", Module: "C19", Imports: []string{"Lib.GoInt", "Corr.C19"}, PerShard: 4000}
 	rng := hx.NewRand(cfg.seed)
 	const maxFile = int64(10) * 1024 * 1024 * 1024 * 1024
@@ -181,5 +181,6 @@ func runC19(cfg config) *hx.Report {
 	rep.Distribution["sidecar-created"] = nSide
 	cf.Close()
 	runC19large(cfg, rep)
+	runC19e2e(cfg, rep)
 	return rep
 }
